@@ -51,6 +51,19 @@ class Inj(Exception):
         self.opid, self.where = opid, where
 
 
+class InjBase(KeyboardInterrupt):
+    """The same failure as a BaseException that is not an Exception (the user presses Ctrl-C while the getter downloads, a worker
+    calls sys.exit()): a getter "that fails part-way" in the property's words just as well."""
+
+    def __init__(self, opid, where):
+        super().__init__(opid, where)
+        self.opid, self.where = opid, where
+
+
+def _inj(g, opid, where):
+    return (InjBase if g.get("base_exc") else Inj)(opid, where)
+
+
 class Monitor:
     """Invariant monitor fed by the instrumented inner cache."""
 
@@ -254,7 +267,7 @@ class C19:
     rule = ("one run = 2-5 callers (threads sharing one ConcurrentCacher, or processes with one each) x 1-6 operations "
             "(get_set with list/iterator/generator/value getters, nested same-key or higher-ranked-key get_set, rmv) on "
             "2-4 keys incl. hash-colliding pairs, over MemoryCacher or DiskCacher, with a fault plan (getter raises before / "
-            "after j lines, body raises, gzip write IOError at write n, torn files + restart phase) and one seeded "
+            "after j lines - an Exception or a KeyboardInterrupt-like BaseException -, body raises, gzip write IOError at write n, torn files + restart phase) and one seeded "
             "schedule with virtual time; non-trivial = at least two callers touched a common lock index and the baton "
             "moved between tasks; distinct = distinct event-log digest")
     assumptions = [
@@ -296,6 +309,7 @@ class C19:
                 r = rng.random()
                 if r < 0.22 and kind != "value":
                     g["raise_at"] = rng.randrange(0, g["n"] + 1) if kind == "gen" else 0
+                    g["base_exc"] = rng.random() < 0.3      # KeyboardInterrupt-like instead of Exception
                 elif r < 0.34:
                     op["body"]["raise"] = True
                 elif r < 0.5 and backend == "disk":
@@ -369,8 +383,8 @@ class C19:
                 if mon.others(mon.writers, key, me):
                     mon.bad("two_getters", f"getter for {key!r} invoked while another caller populates it")
                 if g["raise_at"] == 0 and g["kind"] != "gen":
-                    sim.count("fault.getter_raise")
-                    raise Inj(op["id"], "getter")
+                    sim.count("fault.getter_raise_baseexception" if g.get("base_exc") else "fault.getter_raise")
+                    raise _inj(g, op["id"], "getter")
                 pid, lines = build()
                 sim.yield_("getter")
                 if g["kind"] == "list":
@@ -381,13 +395,13 @@ class C19:
                 def gen():
                     for i, l in enumerate(lines):
                         if g["raise_at"] == i:
-                            sim.count("fault.getter_raise_partway")
-                            raise Inj(op["id"], "getter")
+                            sim.count("fault.getter_raise_partway_baseexception" if g.get("base_exc") else "fault.getter_raise_partway")
+                            raise _inj(g, op["id"], "getter")
                         sim.yield_("getter.line")
                         yield l
                     if g["raise_at"] == len(lines):
-                        sim.count("fault.getter_raise_partway")
-                        raise Inj(op["id"], "getter")
+                        sim.count("fault.getter_raise_partway_baseexception" if g.get("base_exc") else "fault.getter_raise_partway")
+                        raise _inj(g, op["id"], "getter")
                 return gen()
 
             if g["kind"] == "value":
@@ -417,7 +431,7 @@ class C19:
                         sim.count("fault.body_raise")
                         raise Inj(op["id"], "body")
                 records.append((phase, cidx, op["id"], "value", got, key, pop_at_open))
-            except Inj as e:
+            except (Inj, InjBase) as e:
                 records.append((phase, cidx, op["id"], "inj", (e.opid, e.where), key, None))
             except Exception as e:
                 records.append((phase, cidx, op["id"], "exc", e, key, None))
@@ -614,6 +628,8 @@ class C19:
                     c = copy.deepcopy(cfg); c["callers"][ci][oi]["body"]["raise"] = False; yield c
                 if op["getter"]["raise_at"] is not None:
                     c = copy.deepcopy(cfg); c["callers"][ci][oi]["getter"]["raise_at"] = None; yield c
+                    if op["getter"].get("base_exc"):
+                        c = copy.deepcopy(cfg); c["callers"][ci][oi]["getter"]["base_exc"] = False; yield c
         if cfg["torn"]:
             c = copy.deepcopy(cfg); c["torn"] = []; yield c
             if len(cfg["torn"]) > 1:
